@@ -62,6 +62,10 @@ ChainOK(sc, ch) ==
   /\ \A i \in 1..n : TimeOK(C(i), sc.q) /\ ConstraintOK(C(i), sc.q)
   /\ \A i \in 2..n : C(i).pathlen < 0 \/ (i - 2) <= C(i).pathlen      \* i-2 intermediates lie below position i
   /\ NameOK(C(1), sc.q) /\ UsageOK(C(1), sc.q) /\ ~C(1).crit
+\* The statement asks for the requested usage in the LEAF.  The library (like the standard library of its time) also drops a
+\* chain in which some CA carries an extended key usage extension that excludes the usage.  Both readings are kept: a chain
+\* that passes even the strict reading must be found; a chain that is returned must pass at least the statement's reading.
+StrictUsageOK(sc, ch) == \A i \in 1..Len(ch) : UsageOK(sc.certs[ch[i]], sc.q)
 Ids(sc) == DOMAIN sc.certs
 \* all sequences without repetition over the supplied certificates, up to the number of certificates
 RECURSIVE Paths(_, _, _)
@@ -120,7 +124,15 @@ TwinRoots ==
       I2 == Cert(2, "I2", "k2", "R", "kR") I1 == Cert(1, "I1", "k1", "I2", "k2")
       L == Leaf(0, "L", "kL", "I1", "k1", DNS0)
   IN [certs |-> Fn({Ra, Rb, I2, I1, L}), leaf |-> 0, inters |-> {1, 2}, roots |-> {8, 9}, order |-> <<>>, q |-> Q0, tmpl |-> <<"twinroots", 0>>]
-Templates == {Linear(0), Linear(1), Linear(2), Cross, Loop, Diamond, DeepCross, TwinRoots}
+\* a CA X that is trusted directly through a self-signed certificate limited to client authentication, and that is also
+\* certified by an unrestricted root R2 (the cross-certificate is among the intermediates): for a server the chain that
+\* ends in the self-signed X is unusable under the strict reading, the longer one through R2 is fine under both
+CrossEku ==
+  LET Xr == [Cert(8, "X", "kX", "X", "kX") EXCEPT !.eku = {"client"}] R2 == Cert(9, "R2", "kR2", "R2", "kR2")
+      Xc == Cert(1, "X", "kX", "R2", "kR2")
+      L == Leaf(0, "L", "kL", "X", "kX", DNS0)
+  IN [certs |-> Fn({Xr, R2, Xc, L}), leaf |-> 0, inters |-> {1}, roots |-> {8, 9}, order |-> <<>>, q |-> Q0, tmpl |-> <<"crosseku", 0>>]
+Templates == {Linear(0), Linear(1), Linear(2), Cross, Loop, Diamond, DeepCross, TwinRoots, CrossEku}
 
 \* --- knobs: one change to one certificate or to the query ---
 CertKnobs == {"none", "expired", "notyet", "notca", "nocertsign", "pathlen0", "pathlen1", "forged", "permit_ok", "permit_other", "crit",
@@ -177,7 +189,8 @@ Next == /\ ~done /\ done' = TRUE /\ c' = c
                                     certs |-> [i \in DOMAIN c.sc.certs |-> [c.sc.certs[i] EXCEPT !.permitted = SetToSeq(@), !.eku = SetToSeq(@), !.dns = SetToSeq(@), !.ip = SetToSeq(@)]],
                                     leaf |-> c.sc.leaf, inters |-> SetToSeq(c.sc.inters), roots |-> SetToSeq(c.sc.roots),
                                     q |-> [c.sc.q EXCEPT !.usages = SetToSeq(@)],
-                                    accept |-> vc # {}, chains |-> SetToSeq(vc)])>>)
+                                    accept |-> vc # {}, chains |-> SetToSeq(vc),
+                                    must_accept |-> \E ch \in vc : StrictUsageOK(c.sc, ch)])>>)
 Spec == Init /\ [][Next]_<<c, done>>
 
 \* meta-properties of the reference itself
